@@ -50,8 +50,9 @@ def distance_point_to_segment(p, s1, s2, delta=0.0, constrain=True):
     :param delta: Stay away from the endpoints with this factor
     :return: (Distance in meters, projected location on segment, relative location on segment)
     """
-    lat1, lon1 = s1  # Start point
-    lat2, lon2 = s2  # End point
+    # Points can have a third (time) component
+    lat1, lon1 = s1[0], s1[1]  # Start point
+    lat2, lon2 = s2[0], s2[1]  # End point
     lat3, lon3 = p[0], p[1]
     lat1, lon1 = radians(lat1), radians(lon1)
     lat2, lon2 = radians(lat2), radians(lon2)
@@ -105,11 +106,11 @@ def distance_segment_to_segment(f1, f2, t1, t2):
     :return: (distance, proj on f, proj on t, rel pos on t)
     """
     # Translate lat-lon to x-y and apply the Euclidean function
-    latf1, lonf1 = f1
+    latf1, lonf1 = f1[0], f1[1]
     latf1, lonf1 = radians(latf1), radians(lonf1)
     f1 = 0, 0  # Origin
 
-    latf2, lonf2 = f2
+    latf2, lonf2 = f2[0], f2[1]
     latf2, lonf2 = radians(latf2), radians(lonf2)
     df1f2 = distance_haversine_radians(latf1, lonf1, latf2, lonf2)
     bf1f2 = bearing_radians(latf1, lonf1, latf2, lonf2)
